@@ -447,6 +447,10 @@ class Machine:
                 return Tup(list(b[off:]))
         if "uneval_def" in op and "promoted" not in op:
             c = self.F.consts.get(op["uneval_def"])
+            if (not c or "int" not in c) and s.frames[fi].inst:
+                tv = self.F.trait_const_in_instance(op["uneval_def"], s.frames[fi].inst)
+                if tv is not None:
+                    return bool(tv) if op.get("ty") == "bool" else tv
             if c:
                 if "int" in c:
                     return int(c["int"])
